@@ -115,6 +115,8 @@ def evaluate(spec):
 @st.composite
 def spec_strategy(draw, tier):
     n = draw(st.integers(2, 5 if tier == "quick" else 10))
+    if tier == "quick" and draw(st.integers(0, 7)) == 0:
+        n = draw(st.integers(6, 9))         # busy captures also in the quick tier (F44 needed 8 connections to one server)
     topology = draw(st.sampled_from(["distinct", "same-hosts", "same-client-port", "same-server", "swapped-roles", "mixed"]))
     v6 = draw(st.booleans())
     base = draw(strategies.endpoints(idx=0, v6=v6))
